@@ -47,6 +47,32 @@ def run(ctx: Context) -> None:
     clause_a(ctx, idx, res)
     clause_b(ctx, idx)
     clause_c(ctx, idx)
+    clause_c_order(ctx, idx, res)
+
+
+def clause_c_order(ctx: Context, idx, res) -> None:
+    """"in program order" inside one measurement: the requested mode order reaches the sampler's index construction
+    (the order rule of C16, restricted to the steps registered for Measurement classes)."""
+    from ..registry import get_registry
+    from .C16 import scan_order
+    reg = get_registry(idx)
+    meas = idx.find_class("piquasso.api.instruction", "Measurement")
+    roots = []
+    seen = set()
+    for s in reg.simulators:
+        for e in s.entries:
+            if not e.instr.is_subclass_of(meas):
+                continue
+            for st in [e.step, e.factory] + list(e.factory_args.values()):
+                if st is not None and id(st.node) not in seen:
+                    seen.add(id(st.node))
+                    roots.append((st, set()))
+                    for loc in res.local_defs(st).values():
+                        roots.append((loc, set()))
+    n_funcs, n_uses = scan_order(ctx, res, roots, "C02c", "C02c")
+    ctx.require_floor("measurement steps and helpers followed for mode order", n_funcs, 30)
+    ctx.obligation("C02c", "measurement steps|requested mode order reaches the samplers",
+                   not any(f.rule == "C02c" and "previous-outcome-first" not in f.key for f in ctx.findings), functions=n_funcs, uses=n_uses)
 
 
 def clause_a(ctx: Context, idx, res) -> None:
